@@ -363,7 +363,14 @@ func (s *LegacyServer) authenticateResourceClient(ctx context.Context, cc *Clien
 
 	if cc.ClientAssertion != "" {
 		if jp, ok := s.provider.(ClientJWTProfile); ok {
-			return ClientJWTAuth(ctx, oidc.ClientAssertionParams{ClientAssertion: cc.ClientAssertion}, jp)
+			clientID, err := ClientJWTAuth(ctx, oidc.ClientAssertionParams{ClientAssertion: cc.ClientAssertion}, jp)
+			if err != nil {
+				return "", err
+			}
+			if err = checkPrivateKeyJWTClient(ctx, clientID, s.provider.Storage()); err != nil {
+				return "", err
+			}
+			return clientID, nil
 		}
 		return "", oidc.ErrInvalidClient().WithDescription("client_assertion not supported")
 	}
